@@ -193,6 +193,19 @@ func init() {
 			if re.MaxSize == 0 {
 				re.Flags |= uint64(txfile.FlagUnboundMaxSize)
 			}
+			if i%4 == 3 {
+				// an unbounded file that already extends beyond the limit it is given now
+				cfg = engine.Config{PageSize: 1024, MaxSize: 0, InitMetaArea: uint32(hr.Intn(3) * 4)}
+				prior = []engine.Op{{Kind: "begin"}, {Kind: "alloc", N: 70 + hr.Intn(150)}}
+				for k := 0; k < 12; k++ {
+					prior = append(prior, engine.Op{Kind: "setfull", P: 1000 - k*7, Seed: 1 + hr.Intn(1000)})
+				}
+				prior = append(prior, engine.Op{Kind: "setroot", P: 1000}, engine.Op{Kind: "commit"})
+				re.MaxSize = []uint64{64 * 1024, 80 * 1024, 128 * 1024}[hr.Intn(3)]
+				re.Flags = uint64(txfile.FlagUpdMaxSize)
+				re.Prealloc = hr.Intn(2) == 0
+				rep.count("scenario:bound-an-unbounded-file-that-is-larger", 1)
+			}
 			var further []engine.Op
 			if hr.Intn(2) == 0 {
 				further = fillOps(hr, 2+hr.Intn(6))
